@@ -72,6 +72,18 @@ def sc_pool(r, n_rand):
             out.append((cl, base | r.below(1 << (8 * j))))
             out.append((cl + "_hi", base | ((1 << (8 * j)) - 1 - r.below(min(1 << 16, 1 << (8 * j))))))
             out.append((cl + "_top", base | (1 << (8 * j - 1)) | r.below(min(1 << 16, 1 << (8 * j - 1)))))
+    # limb-boundary patterns of BOTH scalar limb widths (52 and 29 bits): a limb that is all ones (with a borrow / carry arriving from
+    # the limb below), a lone bit at a limb boundary, all-ones runs across boundaries - where a carry/borrow chain can lose a bit
+    for w in (52, 29):
+        nl = 5 if w == 52 else 9
+        for i in range(1, nl):
+            lo, hi = w * i, min(w * (i + 1), 252)
+            if lo >= 252:
+                break
+            out.append(("limb%d_ones" % w, ((1 << hi) - (1 << lo)) + 1))            # limb i all ones, limb 0 = 1
+            out.append(("limb%d_ones" % w, (1 << hi) - 1))                           # limbs 0..i all ones
+            out.append(("limb%d_bit" % w, 1 << lo))                                  # lone bit at the boundary
+            out.append(("limb%d_ones" % w, ((1 << hi) - (1 << lo)) + r.below(1 << min(lo, 40))))
     for i in range(n_rand):
         k = r.below(6)
         if k == 0:
